@@ -210,4 +210,40 @@ theorem extractClass_lone (sel name : List B) (h : extractClass sel = some name)
       exact hc.2 b hb (by simpa using hin)
   · simp at h
 
+/-- every declaration the parser keeps has a property and a value (a rule never contributes a half-empty declaration) -/
+theorem parseDecls_nonempty (part : List B) : ∀ d ∈ parseDecls part, d.prop ≠ [] ∧ d.val ≠ [] := by
+  intro d hd
+  unfold parseDecls at hd
+  rw [List.mem_filterMap] at hd
+  obtain ⟨p, _, hp⟩ := hd
+  simp only at hp
+  split at hp
+  · simp at hp
+  · split at hp
+    · simp at hp
+    · rename_i k _
+      split at hp
+      · simp at hp
+      · rename_i hne
+        simp only [Option.some.injEq] at hp
+        subst hp
+        simp only [Bool.or_eq_true, decide_eq_true_eq, not_or] at hne
+        exact hne
+
+/-- … and so does every entry of the table: nothing but kept declarations of parsed rules gets in -/
+theorem spec_mem (texts : List (List B)) (c : List B) : ∀ d ∈ spec texts c, ∃ t ∈ texts, ∃ r ∈ parseRules t, d ∈ r.decls := by
+  intro d hd
+  unfold spec at hd
+  rw [List.mem_flatMap] at hd
+  obtain ⟨r, hr, hdr⟩ := hd
+  rw [List.mem_flatMap] at hr
+  obtain ⟨t, ht, hrt⟩ := hr
+  refine ⟨t, ht, r, hrt, ?_⟩
+  unfold fromRule at hdr
+  rw [List.mem_flatMap] at hdr
+  obtain ⟨s, _, hs⟩ := hdr
+  split at hs
+  · exact hs
+  · simp at hs
+
 end Gomjml.InlineCss
